@@ -98,9 +98,14 @@ Proof.
   rewrite forallb_forall in H. apply H. exact Hin.
 Qed.
 
-(* the full statement (no exceptions) is refuted by the table itself *)
-Theorem C01_reserialise_refuted : exists e, In e store_types /\ entry_strict e = false.
-Proof. exists ("ledger/conway", "ConwayTransactionBody", 0%N, true)%string. split; [vm_compute; tauto|reflexivity]. Qed.
+(* the strict statement (no exceptions): its offenders are exactly types of the
+   explicit list; after fixes/C01-marshalcbor-wire-types.patch there are none
+   (the list can then be emptied and the known finding dropped) *)
+Theorem C01_reserialise_strict_offenders_listed : forall e, In e store_types -> entry_strict e = false -> is_known e = true.
+Proof.
+  intros e Hin Hs. assert (H : forallb (fun e => entry_strict e || is_known e) store_types = true) by (vm_compute; reflexivity).
+  rewrite forallb_forall in H. specialize (H e Hin). rewrite Hs in H. exact H.
+Qed.
 
 (* the four output types repaired by fixes/C01-output-marshal-stored-bytes.patch are in the strict part *)
 Theorem C01_outputs_return_stored : forall t, In t ["ShelleyTransactionOutput"; "MaryTransactionOutput"; "AlonzoTransactionOutput"; "BabbageTransactionOutput"]%string ->
